@@ -239,6 +239,12 @@ impl<H: Hasher> BatchMerkleProof<H> {
                 i += 1;
             }
         }
+        // every node carried by the opening must have been used; otherwise two different
+        // openings (one of them padded with extra digests) would verify for the same leaves
+        if proof_pointers.iter().zip(self.nodes.iter()).any(|(&used, nodes)| used != nodes.len()) {
+            return Err(MerkleTreeError::InvalidProof);
+        }
+
         v.remove(&1).ok_or(MerkleTreeError::InvalidProof)
     }
 
